@@ -80,7 +80,7 @@ class C11(Check):
                                       "sensor_agent": gen.ground_sensor(95001 + j, lat, lon, alt, gen.sensor_block(rng.choice(["optical", "radar", "adv_radar"])))})
         ncalls = rng.choice([1, 1, 2])
         plan = [{"seconds": step * nsteps}] if ncalls == 1 or nsteps < 2 else [{"seconds": step * rng.randrange(1, nsteps)}, {"seconds": step * nsteps}]
-        return {"config": cfg, "plan": plan, "schedule": {"name": "seeded", "seed": rng.randrange(2**31)}, "job_seed": rng.randrange(2**31)}
+        return {"config": cfg, "plan": plan, "schedule": {"name": "seeded", "seed": rng.randrange(2**31)}, "job_seed": rng.randrange(2**31), "tz": gen.draw_tz(rng)}
 
     def sample_view(self, case):
         t = case["config"]["time"]
